@@ -3,7 +3,11 @@
 //! reference model. Serves C11, C12, C13, C16, C17.
 use fibre_cache::policy::CachePolicy;
 use fibre_cache::verif as hook;
-use fibre_cache::{Cache, CacheBuilder, Entry, EvictionListener, EvictionReason};
+use fibre_cache::{AsyncCache, AsyncEntry, Cache, CacheBuilder, Entry, EvictionListener, EvictionReason};
+use futures_util::Stream;
+use std::future::Future;
+use std::pin::Pin;
+use std::task::{Context, Poll, Wake, Waker};
 use serde::{Deserialize, Serialize};
 use std::collections::{BTreeMap, BTreeSet};
 use std::hash::{BuildHasher, Hasher};
@@ -42,6 +46,42 @@ impl BuildHasher for IdBuild {
 type K = u32;
 type V = u64;
 type C = Cache<K, V, IdBuild>;
+type AC = AsyncCache<K, V, IdBuild>;
+
+// ---------------------------------------------------------------- minimal executor for the async handle
+struct ThreadWaker(std::thread::Thread);
+impl Wake for ThreadWaker {
+    fn wake(self: Arc<Self>) {
+        self.0.unpark();
+    }
+}
+/// Drives one future on the calling thread. On a single thread the hybrid-lock futures of the cache
+/// never wait; the only genuinely pending case is a load that a loader thread completes.
+fn block_on<F: Future>(f: F) -> F::Output {
+    let mut f = std::pin::pin!(f);
+    let w = Waker::from(Arc::new(ThreadWaker(std::thread::current())));
+    let mut cx = Context::from_waker(&w);
+    let t0 = Instant::now();
+    loop {
+        if let Poll::Ready(v) = f.as_mut().poll(&mut cx) {
+            return v;
+        }
+        if t0.elapsed() > Duration::from_secs(20) {
+            panic!("async operation still pending after 20 s on an otherwise idle cache");
+        }
+        std::thread::park_timeout(Duration::from_millis(50));
+    }
+}
+fn collect_stream<S: Stream + Unpin>(mut s: S) -> Vec<S::Item> {
+    let mut out = vec![];
+    loop {
+        let item = block_on(std::future::poll_fn(|cx| Pin::new(&mut s).poll_next(cx)));
+        match item {
+            Some(x) => out.push(x),
+            None => return out,
+        }
+    }
+}
 
 #[derive(Clone, Debug, Serialize, Deserialize, PartialEq, Eq)]
 pub struct Cfg {
@@ -58,6 +98,9 @@ pub struct Cfg {
     pub grace_s: Option<u64>,
     #[serde(default)]
     pub loader: bool,
+    /// drive the cache through the AsyncCache handle (every operation awaited by `block_on`)
+    #[serde(default)]
+    pub async_handle: bool,
 }
 impl Cfg {
     fn name(&self) -> String {
@@ -70,7 +113,7 @@ impl Cfg {
             self.ttl_s.map(|c| c.to_string()).unwrap_or("-".into()),
             self.tti_s.map(|c| c.to_string()).unwrap_or("-".into()),
             if self.introspection_maintenance { "/im" } else { "" },
-            self.grace_s.map(|g| format!("/grace{}", g)).unwrap_or_default(),
+            self.grace_s.map(|g| format!("/grace{}", g)).unwrap_or_default() + if self.async_handle { "/async" } else { "" },
             self.depth
         )
     }
@@ -89,6 +132,18 @@ pub enum Act {
     EntryGet(K),
     EntryOrInsert(K, u64),
     Compute(K),
+    /// `compute` (the waiting form; on one thread it never waits)
+    ComputeLoop(K),
+    /// entry(k): Vacant -> insert(id, cost); Occupied -> get
+    EntryInsert(K, u64),
+    /// multiget over keys 0..n
+    MultiGet(u32),
+    /// multi_insert of keys 0..n, unit cost
+    MultiInsert(u32),
+    /// multi_remove of keys 0..n
+    MultiRemove(u32),
+    /// multi_invalidate of keys 0..n
+    MultiInvalidate(u32),
     FetchWith(K),
     Iter(usize),
     IterSnapshot,
@@ -138,6 +193,7 @@ struct World {
     cfg: Cfg,
     loads: Arc<Mutex<Vec<(K, V)>>>,
     cache: C,
+    acache: AC,
     notes: Arc<Mutex<Vec<(K, V, EvictionReason)>>>,
     now: u64,
     /// latest value written per key that has not been removed / cleared by the user
@@ -219,7 +275,8 @@ impl World {
         let loads = Arc::new(Mutex::new(Vec::new()));
         NEXT_LOADED.store(1_000_000, std::sync::atomic::Ordering::SeqCst);
         let cache = build_cache_l(cfg, &notes, None, &loads);
-        World { cfg: cfg.clone(), loads, cache, notes, now: T0, latest: BTreeMap::new(), ids: BTreeMap::new(), dead: BTreeSet::new(), notified: BTreeSet::new(), next_id: 1, log: vec![], stats_rolls: 0 }
+        let acache = cache.to_async();
+        World { cfg: cfg.clone(), loads, cache, acache, notes, now: T0, latest: BTreeMap::new(), ids: BTreeMap::new(), dead: BTreeSet::new(), notified: BTreeSet::new(), next_id: 1, log: vec![], stats_rolls: 0 }
     }
     fn ttl(&self) -> Option<u64> {
         self.cfg.ttl_s.map(|s| s * SEC)
@@ -267,6 +324,12 @@ impl World {
             Act::EntryGet(_) => "entry.occupied.get",
             Act::EntryOrInsert(..) => "entry.or_insert",
             Act::Compute(_) => "compute",
+            Act::ComputeLoop(_) => "compute_loop",
+            Act::EntryInsert(..) => "entry.insert",
+            Act::MultiGet(_) => "multiget",
+            Act::MultiInsert(_) => "multi_insert",
+            Act::MultiRemove(_) => "multi_remove",
+            Act::MultiInvalidate(_) => "multi_invalidate",
             Act::FetchWith(_) => "fetch_with",
             Act::Iter(_) => "iter",
             Act::IterSnapshot => "iter_snapshot",
@@ -370,16 +433,24 @@ impl World {
         match a {
             Act::Insert(k, c) => {
                 let id = self.write(k, c, None);
-                self.cache.insert(k, id, c);
+                if self.cfg.async_handle {
+                    block_on(self.acache.insert(k, id, c));
+                } else {
+                    self.cache.insert(k, id, c);
+                }
                 Ok(Out::Unit)
             }
             Act::InsertTtl(k, c, ttl) => {
                 let id = self.write(k, c, Some(ttl));
-                self.cache.insert_with_ttl(k, id, c, Duration::from_nanos(ttl));
+                if self.cfg.async_handle {
+                    block_on(self.acache.insert_with_ttl(k, id, c, Duration::from_nanos(ttl)));
+                } else {
+                    self.cache.insert_with_ttl(k, id, c, Duration::from_nanos(ttl));
+                }
                 Ok(Out::Unit)
             }
             Act::Remove(k) => {
-                let got = self.cache.remove(&k).map(|v| *v);
+                let got = if self.cfg.async_handle { block_on(self.acache.remove(&k)).map(|v| *v) } else { self.cache.remove(&k).map(|v| *v) };
                 // remove returns the stored value (identity rules of a read; it is not one of the
                 // read APIs the expiry property speaks about), then the key is gone
                 self.check_read_x(k, got, op, Some(false), false)?;
@@ -389,38 +460,49 @@ impl World {
                 Ok(Out::Val(got))
             }
             Act::Invalidate(k) => {
-                let b = self.cache.invalidate(&k);
+                let b = if self.cfg.async_handle { block_on(self.acache.invalidate(&k)) } else { self.cache.invalidate(&k) };
                 if let Some(e) = self.latest.remove(&k) {
                     self.dead.insert(e.id);
                 }
                 Ok(Out::Bool(b))
             }
             Act::Clear => {
-                self.cache.clear();
+                if self.cfg.async_handle {
+                    block_on(self.acache.clear());
+                } else {
+                    self.cache.clear();
+                }
                 for (_, e) in std::mem::take(&mut self.latest) {
                     self.dead.insert(e.id);
                 }
                 Ok(Out::Unit)
             }
             Act::Get(k) => {
-                let got = self.cache.get(&k, |v| *v);
+                let got = if self.cfg.async_handle { block_on(self.acache.get(&k, |v| *v)) } else { self.cache.get(&k, |v| *v) };
                 self.check_read(k, got, op, Some(true))?;
                 Ok(Out::Val(got))
             }
             Act::Fetch(k) => {
-                let got = self.cache.fetch(&k).map(|v| *v);
+                let got = if self.cfg.async_handle { block_on(self.acache.fetch(&k)).map(|v| *v) } else { self.cache.fetch(&k).map(|v| *v) };
                 self.check_read(k, got, op, Some(true))?;
                 Ok(Out::Val(got))
             }
             Act::Peek(k) => {
-                let got = self.cache.peek(&k).map(|v| *v);
+                let got = if self.cfg.async_handle { block_on(self.acache.peek(&k)).map(|v| *v) } else { self.cache.peek(&k).map(|v| *v) };
                 self.check_read(k, got, op, Some(false))?;
                 Ok(Out::Val(got))
             }
             Act::EntryGet(k) => {
-                let got = match self.cache.entry(k) {
-                    Entry::Occupied(o) => Some(*o.get()),
-                    Entry::Vacant(_) => None,
+                let got = if self.cfg.async_handle {
+                    match block_on(self.acache.entry(k)) {
+                        AsyncEntry::Occupied(o) => Some(*o.get()),
+                        AsyncEntry::Vacant(_) => None,
+                    }
+                } else {
+                    match self.cache.entry(k) {
+                        Entry::Occupied(o) => Some(*o.get()),
+                        Entry::Vacant(_) => None,
+                    }
                 };
                 self.check_read(k, got, op, None)?;
                 Ok(Out::Val(got))
@@ -429,7 +511,7 @@ impl World {
                 let id = self.next_id;
                 self.next_id += 1;
                 self.ids.insert(id, (k, c));
-                let got = *self.cache.entry(k).or_insert(id, c);
+                let got = if self.cfg.async_handle { *block_on(self.acache.entry(k)).or_insert(id, c) } else { *self.cache.entry(k).or_insert(id, c) };
                 if got == id {
                     // inserted: the key must have been vacant from the model's point of view, or the old entry is gone
                     if let Some(old) = self.latest.get(&k) {
@@ -452,14 +534,22 @@ impl World {
                 let id = self.next_id;
                 self.next_id += 1;
                 let mut seen: Option<V> = None;
-                let done = self.cache.try_compute(&k, |v| {
-                    seen = Some(*v);
-                    *v = id;
-                });
+                let done = if self.cfg.async_handle {
+                    block_on(self.acache.try_compute(&k, |v| {
+                        seen = Some(*v);
+                        *v = id;
+                    }))
+                } else {
+                    self.cache.try_compute(&k, |v| {
+                        seen = Some(*v);
+                        *v = id;
+                    })
+                };
                 match done {
                     Some(true) => {
                         let old = seen.unwrap();
-                        self.check_read(k, Some(old), op, None)?;
+                        // compute is a read-modify-write, not one of the read APIs the expiry property lists (like remove)
+                        self.check_read_x(k, Some(old), op, None, false)?;
                         let cost = self.ids.get(&old).map(|x| x.1).unwrap_or(1);
                         self.ids.insert(id, (k, cost));
                         self.dead.insert(old);
@@ -475,9 +565,145 @@ impl World {
                     }
                 }
             }
+            Act::ComputeLoop(k) => {
+                let id = self.next_id;
+                self.next_id += 1;
+                let mut seen: Option<V> = None;
+                let done = if self.cfg.async_handle {
+                    block_on(self.acache.compute(&k, |v| {
+                        seen = Some(*v);
+                        *v = id;
+                    }))
+                } else {
+                    self.cache.compute(&k, |v| {
+                        seen = Some(*v);
+                        *v = id;
+                    })
+                };
+                if done {
+                    let old = seen.unwrap();
+                    self.check_read_x(k, Some(old), op, None, false)?;
+                    let cost = self.ids.get(&old).map(|x| x.1).unwrap_or(1);
+                    self.ids.insert(id, (k, cost));
+                    self.dead.insert(old);
+                    if let Some(e) = self.latest.get_mut(&k) {
+                        e.id = id;
+                    }
+                    Ok(Out::Bool(true))
+                } else {
+                    self.check_read_x(k, None, op, None, false)?;
+                    Ok(Out::Bool(false))
+                }
+            }
+            Act::EntryInsert(k, c) => {
+                let id = self.next_id;
+                self.next_id += 1;
+                self.ids.insert(id, (k, c));
+                // Some(old) = occupied (value read), None = vacant (id inserted)
+                let got: Option<V> = if self.cfg.async_handle {
+                    match block_on(self.acache.entry(k)) {
+                        AsyncEntry::Occupied(o) => Some(*o.get()),
+                        AsyncEntry::Vacant(v) => {
+                            v.insert(id, c);
+                            None
+                        }
+                    }
+                } else {
+                    match self.cache.entry(k) {
+                        Entry::Occupied(o) => Some(*o.get()),
+                        Entry::Vacant(v) => {
+                            v.insert(id, c);
+                            None
+                        }
+                    }
+                };
+                match got {
+                    None => {
+                        if let Some(old) = self.latest.get(&k) {
+                            if self.cfg.capacity.is_none() && self.certainly_live(old) {
+                                return Err(fail("C11", "entry_vacant_for_live_entry", op, format!("entry({}) was Vacant although #{} is live and the cache is unbounded", k, old.id)));
+                            }
+                            self.dead.insert(old.id);
+                        }
+                        let expires_at = self.ttl().map(|t| self.now + t);
+                        self.latest.insert(k, MEntry { id, cost: c, expires_at, la_min: self.now, la_max: self.now });
+                        Ok(Out::Val(None))
+                    }
+                    Some(g) => {
+                        self.dead.insert(id);
+                        self.check_read(k, Some(g), op, None)?;
+                        Ok(Out::Val(Some(g)))
+                    }
+                }
+            }
+            Act::MultiGet(n) => {
+                let keys: Vec<K> = (0..n).collect();
+                let mut items: Vec<(K, V)> = if self.cfg.async_handle {
+                    block_on(self.acache.multiget(keys.clone())).iter().map(|(k, v)| (*k, **v)).collect()
+                } else {
+                    self.cache.multiget(keys.clone()).iter().map(|(k, v)| (*k, **v)).collect()
+                };
+                items.sort();
+                for (k, _) in &items {
+                    if !keys.contains(k) {
+                        return Err(fail("C11", "other_keys_value", op, format!("multiget({:?}) returned key {} which was not asked for", keys, k)));
+                    }
+                }
+                for k in keys {
+                    let g = items.iter().find(|x| x.0 == k).map(|x| x.1);
+                    self.check_read(k, g, op, None)?;
+                }
+                Ok(Out::Items(items))
+            }
+            Act::MultiInsert(n) => {
+                let mut batch = vec![];
+                for k in 0..n {
+                    let id = self.write(k, 1, None);
+                    batch.push((k, id, 1u64));
+                }
+                if self.cfg.async_handle {
+                    block_on(self.acache.multi_insert(batch));
+                } else {
+                    self.cache.multi_insert(batch);
+                }
+                Ok(Out::Unit)
+            }
+            Act::MultiRemove(n) => {
+                let keys: Vec<K> = (0..n).collect();
+                let got: Vec<(K, Arc<V>)> = if self.cfg.async_handle { block_on(self.acache.multi_remove::<_, K>(keys.clone())) } else { self.cache.multi_remove::<_, K>(keys.clone()) };
+                let mut items: Vec<(K, V)> = got.iter().map(|(k, v)| (*k, **v)).collect();
+                items.sort();
+                for w in items.windows(2) {
+                    if w[0].0 == w[1].0 {
+                        return Err(fail("C11", "removed_twice", op, format!("multi_remove returned key {} twice: {:?}", w[0].0, items)));
+                    }
+                }
+                for k in keys {
+                    let g = items.iter().find(|x| x.0 == k).map(|x| x.1);
+                    self.check_read_x(k, g, op, Some(false), false)?;
+                    if let Some(e) = self.latest.remove(&k) {
+                        self.dead.insert(e.id);
+                    }
+                }
+                Ok(Out::Items(items))
+            }
+            Act::MultiInvalidate(n) => {
+                let keys: Vec<K> = (0..n).collect();
+                if self.cfg.async_handle {
+                    block_on(self.acache.multi_invalidate::<_, K>(keys.clone()));
+                } else {
+                    self.cache.multi_invalidate::<_, K>(keys.clone());
+                }
+                for k in keys {
+                    if let Some(e) = self.latest.remove(&k) {
+                        self.dead.insert(e.id);
+                    }
+                }
+                Ok(Out::Unit)
+            }
             Act::FetchWith(k) => {
                 let before = self.loads.lock().unwrap().len();
-                let got = *self.cache.fetch_with(&k);
+                let got = if self.cfg.async_handle { *block_on(self.acache.fetch_with(&k)) } else { *self.cache.fetch_with(&k) };
                 let grace = self.cfg.grace_s.map(|g| g * SEC);
                 let ent = self.latest.get(&k).cloned();
                 let loaded_now: Vec<(K, V)> = self.loads.lock().unwrap()[before..].to_vec();
@@ -547,13 +773,26 @@ impl World {
                 }
             }
             Act::Iter(batch) => {
-                let items: Vec<(K, V)> = self.cache.iter_with_batch_size(batch).map(|(k, v)| (k, *v)).collect();
+                let items: Vec<(K, V)> = if self.cfg.async_handle {
+                    collect_stream(self.acache.iter_stream_with_batch_size(batch)).into_iter().map(|(k, v)| (k, *v)).collect()
+                } else {
+                    self.cache.iter_with_batch_size(batch).map(|(k, v)| (k, *v)).collect()
+                };
                 self.check_enumeration(&items, op)?;
                 self.may_refresh(&items);
                 Ok(Out::Items(items))
             }
             Act::IterSnapshot => {
-                let items: Vec<(K, V)> = self.cache.iter_snapshot().map(|(k, v)| (k, *v)).collect();
+                let items: Vec<(K, V)> = if self.cfg.async_handle {
+                    let mut it = self.acache.iter_snapshot_async();
+                    let mut out = vec![];
+                    while let Some((k, v)) = block_on(it.next()) {
+                        out.push((k, *v));
+                    }
+                    out
+                } else {
+                    self.cache.iter_snapshot().map(|(k, v)| (k, *v)).collect()
+                };
                 self.check_enumeration(&items, op)?;
                 self.may_refresh(&items);
                 Ok(Out::Items(items))
@@ -590,6 +829,7 @@ impl World {
                 if cc != sum {
                     return Err(fail("C13", "current_cost_mismatch", op, format!("restored cache: current_cost {} vs resident cost {}", cc, sum)));
                 }
+                self.acache = restored.to_async();
                 self.cache = restored;
                 self.stats_rolls += 1;
                 Ok(Out::Unit)
@@ -598,7 +838,11 @@ impl World {
                 // run to a fixpoint (at most 3 passes)
                 let mut last = hook::dump(&self.cache).len();
                 for _ in 0..3 {
-                    self.cache.run_maintenance();
+                    if self.cfg.async_handle {
+                        block_on(self.acache.run_maintenance());
+                    } else {
+                        self.cache.run_maintenance();
+                    }
                     let n = hook::dump(&self.cache).len();
                     if n == last {
                         break;
@@ -691,11 +935,14 @@ impl World {
             if after.contains_key(id) {
                 return Err(fail("C16", "notified_but_still_resident", op, format!("listener told ({}, #{}, {:?}) but #{} is still stored", k, id, reason, id)));
             }
-            if !before.contains_key(id) && !matches!(a, Act::Insert(..) | Act::InsertTtl(..) | Act::EntryOrInsert(..)) {
+            if !before.contains_key(id) && !matches!(a, Act::Insert(..) | Act::InsertTtl(..) | Act::EntryOrInsert(..) | Act::EntryInsert(..) | Act::MultiInsert(..)) {
                 return Err(fail("C16", "notification_without_removal", op, format!("listener told ({}, #{}, {:?}) but #{} was not resident before this step", k, id, reason, id)));
             }
             // reason must match the cause
-            let user_removed = matches!((a, out), (Act::Remove(rk), Out::Val(Some(rid))) if rk == *k && rid == id) || matches!(a, Act::Invalidate(rk) if rk == *k);
+            let user_removed = matches!((a, out), (Act::Remove(rk), Out::Val(Some(rid))) if rk == *k && rid == id)
+                || matches!(a, Act::Invalidate(rk) if rk == *k)
+                || matches!((a, out), (Act::MultiRemove(n), Out::Items(items)) if *k < n && items.iter().any(|x| x.0 == *k && x.1 == *id))
+                || matches!(a, Act::MultiInvalidate(n) if *k < n);
             match reason {
                 EvictionReason::Invalidated if !user_removed => {
                     return Err(fail("C16", "wrong_reason", op, format!("({}, #{}) notified as Invalidated but this step ({:?}) did not remove it", k, id, a)));
@@ -728,12 +975,13 @@ impl World {
                 Act::Insert(ik, _) | Act::InsertTtl(ik, _, _) => ik == *k,
                 Act::Remove(rk) | Act::Invalidate(rk) => rk == *k,
                 Act::Clear => true,
-                Act::Compute(ck) => ck == *k,
+                Act::Compute(ck) | Act::ComputeLoop(ck) => ck == *k,
                 Act::FetchWith(fk) => fk == *k,
-                Act::EntryOrInsert(ek, _) => ek == *k,
+                Act::EntryOrInsert(ek, _) | Act::EntryInsert(ek, _) => ek == *k,
+                Act::MultiInsert(n) | Act::MultiRemove(n) | Act::MultiInvalidate(n) => *k < n,
                 _ => false,
             };
-            if matches!(a, Act::Remove(_) | Act::Invalidate(_)) && by_user {
+            if matches!(a, Act::Remove(_) | Act::Invalidate(_) | Act::MultiRemove(_) | Act::MultiInvalidate(_)) && by_user {
                 return Err(fail("C16", "removal_not_notified", op, format!("{:?} removed #{} but the listener was not told", a, id)));
             }
             if !by_user {
@@ -782,6 +1030,8 @@ fn alphabet(cfg: &Cfg) -> Vec<Act> {
         "tti" => vec![Act::Insert(0, 1), Act::Insert(1, 1), Act::Fetch(0), Act::Get(0), Act::Peek(0), Act::EntryGet(0), Act::IterSnapshot, Act::Maint, Act::Adv(5 * SEC), Act::Adv(5 * SEC - 1), Act::Adv(1)],
         "read" => vec![Act::Insert(0, 1), Act::Insert(1, 1), Act::Remove(0), Act::Invalidate(1), Act::Clear, Act::Get(0), Act::Fetch(1), Act::Peek(0), Act::EntryGet(0), Act::EntryOrInsert(0, 1), Act::Compute(0), Act::Iter(2), Act::Maint],
         "iter" => vec![Act::Insert(0, 1), Act::Insert(1, 1), Act::Insert(2, 1), Act::Insert(3, 1), Act::Insert(4, 1), Act::Remove(1), Act::Iter(1), Act::Iter(2), Act::Iter(3), Act::IterSnapshot, Act::SnapshotRestore, Act::Adv(6 * SEC), Act::InsertTtl(2, 1, 5 * SEC)],
+        "bulk" => vec![Act::MultiInsert(2), Act::MultiInsert(3), Act::Insert(1, 2), Act::MultiGet(3), Act::MultiRemove(2), Act::MultiInvalidate(3), Act::Remove(2), Act::Maint, Act::Peek(1), Act::Adv(10 * SEC)],
+        "entry" => vec![Act::Insert(0, 1), Act::EntryInsert(0, 1), Act::EntryInsert(1, 2), Act::EntryOrInsert(0, 2), Act::ComputeLoop(0), Act::Compute(1), Act::Remove(0), Act::Fetch(0), Act::Peek(1), Act::Maint, Act::Adv(10 * SEC)],
         f => panic!("unknown family {}", f),
     }
 }
@@ -827,6 +1077,12 @@ fn witness(hist: &[Act]) -> String {
             Act::EntryGet(k) => format!("E{}", k),
             Act::EntryOrInsert(k, c) => format!("O{}:{}", k, c),
             Act::Compute(k) => format!("U{}", k),
+            Act::ComputeLoop(k) => format!("Ul{}", k),
+            Act::EntryInsert(k, c) => format!("Ei{}:{}", k, c),
+            Act::MultiGet(n) => format!("Mg{}", n),
+            Act::MultiInsert(n) => format!("Mi{}", n),
+            Act::MultiRemove(n) => format!("Mr{}", n),
+            Act::MultiInvalidate(n) => format!("Mv{}", n),
             Act::FetchWith(k) => format!("L{}", k),
             Act::Iter(b) => format!("It{}", b),
             Act::IterSnapshot => "Is".into(),
@@ -965,7 +1221,7 @@ fn configs(tier: &str) -> Vec<Cfg> {
     let quick = tier == "quick";
     let policies_all = ["default", "lru", "fifo", "sieve", "clock", "slru", "arc", "random"];
     let d = |q: usize, t: usize| if quick { q } else { t };
-    let base = Cfg { family: String::new(), policy: "lru".into(), capacity: Some(2), shards: 1, ttl_s: None, tti_s: None, introspection_maintenance: false, depth: 4, grace_s: None, loader: false };
+    let base = Cfg { family: String::new(), policy: "lru".into(), capacity: Some(2), shards: 1, ttl_s: None, tti_s: None, introspection_maintenance: false, depth: 4, grace_s: None, loader: false, async_handle: false };
     // cost accounting / capacity / listener, every policy
     for p in policies_all {
         for (cap, shards) in [(2u64, 1usize), (3, 2)] {
@@ -1007,6 +1263,23 @@ fn configs(tier: &str) -> Vec<Cfg> {
         v.push(Cfg { family: "iter".into(), policy: "default".into(), capacity: None, shards, ttl_s: Some(10), depth: d(4, 5), ..base.clone() });
     }
     v.push(Cfg { family: "iter".into(), policy: "lru".into(), capacity: Some(3), shards: 2, depth: d(4, 5), ..base.clone() });
+    // bulk operations (rayon pool for the sync handle) and the entry / compute API
+    v.push(Cfg { family: "bulk".into(), policy: "default".into(), capacity: None, ttl_s: Some(10), depth: d(4, 5), ..base.clone() });
+    v.push(Cfg { family: "bulk".into(), policy: "lru".into(), capacity: Some(2), depth: d(4, 5), ..base.clone() });
+    v.push(Cfg { family: "bulk".into(), policy: "lru".into(), capacity: Some(3), shards: 2, depth: d(4, 5), ..base.clone() });
+    if !quick {
+        v.push(Cfg { family: "bulk".into(), policy: "default".into(), capacity: Some(2), shards: 4, depth: 5, ..base.clone() });
+    }
+    v.push(Cfg { family: "entry".into(), policy: "default".into(), capacity: None, ttl_s: Some(10), depth: d(4, 5), ..base.clone() });
+    v.push(Cfg { family: "entry".into(), policy: "lru".into(), capacity: Some(2), depth: d(4, 5), ..base.clone() });
+    // the same spaces through the AsyncCache handle (handles/futures.rs, entry_api_async.rs, IterStream)
+    let asyncs: Vec<Cfg> = v
+        .iter()
+        .filter(|c| !quick || matches!(c.policy.as_str(), "default" | "lru"))
+        .filter(|c| !(quick && c.family == "cost" && c.shards == 2))
+        .map(|c| Cfg { async_handle: true, ..c.clone() })
+        .collect();
+    v.extend(asyncs);
     if let Ok(f) = std::env::var("CACHEX_ONLY") {
         v.retain(|c| c.name().contains(&f));
     }
